@@ -30,7 +30,7 @@ const scoreEventSig = "Harness(int,int)"
 
 func scoreKey(k int) string { return "k" + strconv.Itoa(k) }
 
-func encodeProg(p []scoreOp, end int) string {
+func encodeOps(p []scoreOp) string {
 	var parts []string
 	for _, o := range p {
 		switch o.op {
@@ -48,8 +48,16 @@ func encodeProg(p []scoreOp, end int) string {
 			parts = append(parts, "m")
 		}
 	}
-	parts = append(parts, []string{"ok", "rv", "os", "bc", "pn"}[end])
 	return strings.Join(parts, ";")
+}
+
+func encodeProg(p []scoreOp, end int) string {
+	ops := encodeOps(p)
+	e := []string{"ok", "rv", "os", "bc", "pn"}[end]
+	if ops == "" {
+		return e
+	}
+	return ops + ";" + e
 }
 
 type harnessScore struct {
@@ -70,22 +78,46 @@ var harnessAPI = scoreapi.NewInfo([]*scoreapi.Method{
 		Inputs: []scoreapi.Parameter{{Name: "p", Type: scoreapi.String}}},
 	{Type: scoreapi.Function, Name: "iso", Flags: scoreapi.FlagExternal | scoreapi.FlagPayable | scoreapi.FlagIsolated, Indexed: 1,
 		Inputs: []scoreapi.Parameter{{Name: "p", Type: scoreapi.String}}},
+	// callees of the harness asynchronous contract
+	{Type: scoreapi.Function, Name: "ro", Flags: scoreapi.FlagExternal | scoreapi.FlagReadOnly, Indexed: 1,
+		Inputs: []scoreapi.Parameter{{Name: "p", Type: scoreapi.String}}},
+	{Type: scoreapi.Function, Name: "cw", Flags: scoreapi.FlagExternal, Indexed: 1,
+		Inputs: []scoreapi.Parameter{{Name: "p", Type: scoreapi.String}}},
 })
 
 func (s *harnessScore) GetAPI() *scoreapi.Info { return harnessAPI }
 
-func (s *harnessScore) Ex_wld(p string) error { return s.run(p) }
-func (s *harnessScore) Ex_iso(p string) error { return s.run(p) }
+func (s *harnessScore) Ex_wld(p string) error { return runProgram(s.cc, strings.Split(p, ";")) }
+func (s *harnessScore) Ex_iso(p string) error { return runProgram(s.cc, strings.Split(p, ";")) }
+func (s *harnessScore) Ex_ro(p string) error  { return s.callee(p) }
+func (s *harnessScore) Ex_cw(p string) error  { return s.callee(p) }
 
-func (s *harnessScore) run(p string) error {
+// callee of the asynchronous writer: answers ok, reverts, or reports the status an
+// execution engine reports when the call ran out of time.
+func (s *harnessScore) callee(p string) error {
 	x := curExec
-	cc := s.cc
+	idx := int(s.cc.TransactionInfo().Index)
+	x.yield(idx, x.currentAttempt(idx), "callee")
+	switch p {
+	case "to":
+		return scoreresult.TimeoutError.New("execsim: callee ran out of time")
+	case "rv":
+		return scoreresult.RevertedError.New("execsim: callee reverts")
+	}
+	return nil
+}
+
+// runProgram interprets a harness program in the current frame of cc (the frame of
+// the harness SCORE, or of the asynchronous writer): it works on the harness SCORE
+// account's storage and balance.
+func runProgram(cc contract.CallContext, parts []string) error {
+	x := curExec
 	idx := int(cc.TransactionInfo().Index)
 	w := x.w
 	attempt := x.currentAttempt(idx)
 	as := cc.GetAccountState(scoreAddr.ID())
 	acc := int64(0)
-	for i, part := range strings.Split(p, ";") {
+	for i, part := range parts {
 		x.yield(idx, attempt, fmt.Sprintf("s%d", i))
 		switch part {
 		case "ok":
